@@ -315,7 +315,23 @@ pub fn eval(expr: Node) -> Result<Number, Box<dyn error::Error>> {
                         Ok(Number::Float(gamma((n as f64) + 1.0)))
                     }
                 }
-                Number::Float(n) => Ok(Number::Float(gamma(n + 1.0))),
+                Number::Float(n) => {
+                    if n >= 0.0 && (n % 1.0) == 0.0 {
+                        // an integral Float: the exact product, as eval_f64 computes it
+                        if n > 170.0 {
+                            return Ok(Number::Float(f64::INFINITY));
+                        }
+                        let mut factorial_result = 1.0;
+                        for i in 2..=(n as usize) {
+                            #[cfg(feature = "verif_hooks")]
+                            crate::verif_hooks::tick(3);
+                            factorial_result *= i as f64;
+                        }
+                        Ok(Number::from(factorial_result))
+                    } else {
+                        Ok(Number::Float(gamma(n + 1.0)))
+                    }
+                }
             }
         }
         LambertW(expr) => {
